@@ -213,6 +213,38 @@ func TestC06Pos(t *testing.T) {
 	vk.Rapid(h, t, genHeapCase(true), runC06)
 }
 
+// genNearSorted draws a run that is monotone in one direction (steps 0..2,
+// 0..1500 values) with up to three values out of place: positions biased to
+// the ends, replacement values biased to the run's own extremes and to values
+// just inside and outside them (the input of "append one value and sort
+// again", or of any shortcut for inputs that look sorted already).
+func genNearSorted(t *rapid.T) []int {
+	n := rapid.OneOf(rapid.IntRange(0, 70), rapid.IntRange(0, 1500)).Draw(t, "nsN")
+	vs := make([]int, n)
+	if n == 0 {
+		return vs
+	}
+	dir := rapid.SampledFrom([]int{1, -1}).Draw(t, "nsDir")
+	stepMax := rapid.IntRange(0, 2).Draw(t, "nsStepMax")
+	period := rapid.IntRange(1, 4).Draw(t, "nsPeriod")
+	for i := 1; i < n; i++ {
+		st := 0
+		if i%period == 0 {
+			st = stepMax
+		}
+		vs[i] = vs[i-1] + dir*st
+	}
+	lo, hi := min(vs[0], vs[n-1]), max(vs[0], vs[n-1])
+	for k := rapid.IntRange(0, 3).Draw(t, "nsOut"); k > 0; k-- {
+		at := rapid.OneOf(rapid.SampledFrom([]int{0, 1, n - 2, n - 1, n / 2}), rapid.IntRange(0, n-1)).Draw(t, "nsAt")
+		if at < 0 || at >= n {
+			at = n - 1
+		}
+		vs[at] = rapid.OneOf(rapid.SampledFrom([]int{lo, lo - 1, lo + 1, hi, hi - 1, hi + 1, (lo + hi) / 2}), rapid.IntRange(lo-1, hi+1)).Draw(t, "nsVal")
+	}
+	return vs
+}
+
 func TestC05Sort(t *testing.T) {
 	h := vk.Start(t, "C05", "sort")
 	vk.Rapid(h, t, func(t *rapid.T) SortCase {
@@ -220,6 +252,9 @@ func TestC05Sort(t *testing.T) {
 		if rapid.IntRange(0, 9).Draw(t, "nil") > 0 {
 			n := rapid.OneOf(rapid.IntRange(0, 10), rapid.IntRange(0, 200)).Draw(t, "n")
 			c.Vs = genVec(t, "v", n)
+			if rapid.IntRange(0, 3).Draw(t, "near") == 0 {
+				c.Vs = genNearSorted(t)
+			}
 			if rapid.IntRange(0, 5).Draw(t, "big") == 0 {
 				c.Big = rapid.SampledFrom([]int{50, 130, 254, 255, 256, 257, 300, 511, 512, 513, 700, 1100}).Draw(t, "bigN")
 			}
